@@ -258,6 +258,9 @@ func (s *clusterSvc) BlockAllocate(ctx context.Context, in *api.Pin, out *[]peer
 		a = []int{0, 1, 2}
 	default:
 		k := in.ReplicationFactorMax
+		if k == 0 {
+			k = 2 // factor 0 = "the cluster's configured default" (here 2)
+		}
 		if k > nPeers {
 			k = nPeers
 		}
